@@ -64,4 +64,13 @@ def stages(tier, rng, only=None):
         out.append(ac.stage("grid4x2", PID, lambda: ac.cases(grids.datasets(4, 2), ["PickAPerm"], SCHEMES), _nt))
     out.append(ac.wide_stage("wide_1000", PID, lambda: ac.wide_cases(rng, 2 if tier == "quick" else 20, ["PickAPerm"],
                                                                       flags=(0,), complete_only=True)))
+    out.append(ac.wide_stage("permutations_17_plus", PID, lambda: ac.permutation_cases(
+        rng, 28 if tier == "quick" else 280, ["PickAPerm"], flags=(0, 1)), chunk=40))
+    def bench():
+        cs = ac.cases(grids.datasets(3, 2)[::9] + [ac.random_dataset(rng, 6, 5, nmin=2) for _ in range(40)],
+                      ["PickAPerm"], SCHEMES, all_schemes=True, flags=(1, 0))
+        for c in cs:
+            c["bench"] = 1
+        return cs
+    out.append(ac.stage("bench_mode", PID, bench, _nt))
     return [s for s in out if not only or s.name == only]
